@@ -6,6 +6,11 @@ COMMON_NOTE = ("Trusted: Lean 4.33 kernel; axioms limited to propext/Quot.sound/
                "lean/MoreExec/Props. Correspondence covers the explored schedules only; the universal claim is about the model.")
 
 PROPS = {
+    "C14": dict(
+        technique="Lean 4 proofs (structural induction over the completion order) that f_or / f_and equal the or/and fold, losers-cancelled and decided-once, over the decision kernel K5 regenerated from futures/bool.py; histories of the real code (order of handle_done critical sections under a deterministic scheduler) replayed through the Lean fold",
+        level_text="Machine-checked theorems for every completion order of any length: the output equals the or/and fold, exactly the inputs pending at the decision are cancelled, later completions change nothing, cancelling the output fans out. The decision function is regenerated from bool.py each run (and differentially tested exhaustively); real executions under random/PCT schedules supply the critical-section order, which the Lean model folds and the result is compared with the real output future and the cancel() calls observed.",
+        design_ref="DESIGN.md section 6 C14, Appendix A.3",
+        level_note="Modelled, not verified: mutual exclusion of handle_done sections is taken from the Lock (the section order is read from the log); exception objects assumed truthy in the theorems (S18); duplicates only in the correspondence."),
     "C09": dict(
         technique="Lean 4 invariant proofs over a transition-system model of TimeoutExecutor (never-early, exactly-once, sleep invariant / no-overshoot); kernel K3 regenerated from timeout.py; replay correspondence of the real code under a deterministic scheduler",
         level_text="Machine-checked theorems (Lean 4 kernel) over all runs of an executable model of TimeoutExecutor: every cancel attempt is strictly after the job's own deadline, no future gets two attempts, and no idle jump of virtual time passes the deadline of a job while the timeout thread is parked (sleep invariant). The partition/wait-time kernel is regenerated from timeout.py on every run; the hand-written model is tied to the code by validating event logs of the real TimeoutExecutor (random/PCT line-level schedules, virtual clock) against the model's executable step function, with property monitors as failing-input search.",
